@@ -517,11 +517,17 @@ theorem sctlist_roundtrip_lim (lim : SctLimits) (hi : lim.itemMax < 65536) (hl :
 /-- the limits RFC 6962 §3.3 gives -/
 def rfcLim : SctLimits := ⟨1, 65535, 1, 65535⟩
 
-/- FULL: `∀ l v, sctExtValue rfcLim l = some v → parseSctExtValue genLim v = some l` — every list RFC 6962 allows is read back.
-   With the tree's `maxlen:65335` on `SignedCertificateTimestampList.SCTList` this holds only for lists of at most
-   `Gen.sctListMax` bytes (`sctlist_roundtrip` below, stated for the regenerated limits); lists of 65336..65535 bytes are
-   refused by marshaller and parser alike — known finding C03-1 (fixes/C03-1.diff makes `genLim = rfcLim`, after which
-   `sctlist_roundtrip` *is* the full statement). -/
+/-- the limits read from the struct tags are RFC 6962's (since the fix of finding C03-1 / F4, `maxlen:65335` → `65535`; a
+regression re-opens this theorem and the harness case `sctlist-rfc-valid`) -/
+theorem genLim_is_rfc : genLim = rfcLim := by
+  have h : Gen.sctItemMin = 1 ∧ Gen.sctItemMax = 65535 ∧ Gen.sctListMin = 1 ∧ Gen.sctListMax = 65535 := by decide
+  simp [genLim, rfcLim, h.1, h.2.1, h.2.2.1, h.2.2.2]
+
+/-- **every list RFC 6962 allows** is read back by the certificate parser as embedded -/
+theorem sctlist_roundtrip_rfc (l : List Bytes) (v : Bytes) (h : sctExtValue rfcLim l = some v) : parseSctExtValue genLim v = some l := by
+  rw [genLim_is_rfc]
+  exact sctlist_roundtrip_lim rfcLim (by decide) (by decide) l v h
+
 /-- the instance for the limits the code has today (regenerated from the struct tags) -/
 theorem sctlist_roundtrip (l : List Bytes) (v : Bytes) (h : sctExtValue genLim l = some v) : parseSctExtValue genLim v = some l := by
   obtain ⟨_, hi, _, hl⟩ := genLim_two_byte_prefixes
